@@ -340,7 +340,18 @@ def run(facts, rep, tier):
     if ncalls:
         rep.add(Finding("R17.3", "%s : calls" % fn, "the address->country function calls other code (purity not evident)", body.loc()))
 
-    leaves, dead, stats = eval_partition(body)
+    try:
+        leaves, dead, stats = eval_partition(body)
+    except Broken as e:
+        # the lookup is no longer a pure decision tree over the address (calls, memo, thread-local state ...):
+        # "determined solely by its 24-bit address" cannot be established
+        rep.oblige(False, ("pure-tree", fn))
+        rep.add(Finding("R17.1", "%s : country lookup is not a pure function of the address" % fn,
+                        "the function that computes Plane.reg cannot be evaluated as a decision tree over the address (%s): "
+                        "the displayed country may depend on more than the address" % e, body.loc()))
+        rep.instances("R17.1", 1, floor=0)
+        rep.instances("R17.2", 1, floor=0)
+        return
     leaves.sort()
     # coverage sanity: leaves tile [0,2^24)
     cur = 0
